@@ -32,6 +32,7 @@ type Server struct {
 	settingsMu            sync.RWMutex
 	supportsConfiguration bool
 	payeeTemplatesCache   sync.Map // map[protocol.DocumentURI]map[string][]analyzer.PostingTemplate
+	publishMu             sync.Mutex
 }
 
 func NewServer() *Server {
@@ -268,6 +269,14 @@ func (s *Server) publishDiagnostics(ctx context.Context, docURI protocol.Documen
 			Source:   "hledger-lsp",
 			Message:  err.Message,
 		})
+	}
+
+	// Analyses run in unsynchronised goroutines, one per didOpen/didChange. Do not let
+	// the analysis of a superseded version publish after the one of the current text.
+	s.publishMu.Lock()
+	defer s.publishMu.Unlock()
+	if current, ok := s.GetDocument(docURI); ok && current != content {
+		return
 	}
 
 	_ = s.client.PublishDiagnostics(ctx, &protocol.PublishDiagnosticsParams{
